@@ -16,9 +16,14 @@ VARIABLE snap
 L == <<"a", "b", "c", "d", "e">>
 Nm(prefix, i) == prefix \o L[i]
 
-PoolObj(i, pin, bad, n) ==
+(* adv = "multi": the objects carry multi-valued fields (lists INSIDE objects): several CIDRs per  *)
+(* pool, several interfaces / node selectors per L2 advertisement, several peers / communities /  *)
+(* node selectors per BGP advertisement, several aliases per Community, timers and a password on  *)
+(* peers.  cidr c < 100 is the IPv4 block 10.2.c.0/24, c >= 100 an IPv6 block.                     *)
+PoolObj(i, pin, adv, bad, n) ==
   [name |-> Nm("pool-", i),
-   cidr |-> IF bad = "overlap" /\ i = n /\ n >= 2 THEN 1 ELSE i,
+   cidrs |-> LET c == IF bad = "overlap" /\ i = n /\ n >= 2 THEN 1 ELSE i IN
+             IF adv = "multi" THEN (IF i = 1 THEN <<c + 20, c, c + 10>> ELSE <<c + 10, c>>) ELSE <<c>>,
    ns |-> CASE pin = "two" /\ i <= 2 -> <<"ns1">>
             [] pin = "three" /\ i <= 3 -> <<"ns1">>
             [] pin = "all" -> <<"ns1">>
@@ -29,26 +34,45 @@ PoolObj(i, pin, bad, n) ==
    nssel |-> pin = "nssel",
    prio |-> i]
 
-PeerObj(i, bad) == [name |-> Nm("peer-", i), addr |-> i, bfd |-> IF bad = "nobfd" /\ i = 1 THEN "bfd-zz" ELSE ""]
-BfdObj(i) == [name |-> Nm("bfd-", i)]
-AdvPools(i, adv, np) == IF adv = "named" /\ np > 0 THEN <<Nm("pool-", ((i - 1) % np) + 1)>> ELSE <<>>
-L2Obj(i, adv, np) == [name |-> Nm("l2-", i), pools |-> AdvPools(i, adv, np), ifs |-> <<Nm("if-", i)>>]
+Peer(name, addr, bfd, vrf, asn, rid, hold, ka, pw) ==
+  [name |-> name, addr |-> addr, bfd |-> bfd, vrf |-> vrf, myasn |-> asn, rid |-> rid, hold |-> hold, ka |-> ka, pw |-> pw]
+(* hold / ka in milliseconds, 0 = not set *)
+PeerObj(i, adv, bad) ==
+  Peer(Nm("peer-", i), i, IF bad = "nobfd" /\ i = 1 THEN "bfd-zz" ELSE "", "", 64512, "",
+       IF adv = "multi" THEN (IF i = 1 THEN 7500 ELSE 90000) ELSE 0,
+       IF adv = "multi" /\ i = 3 THEN 2500 ELSE 0,
+       IF adv = "multi" /\ i = 2 THEN "pw" ELSE "")
+BfdObj(i, echo) == [name |-> Nm("bfd-", i), echo |-> echo]
+AdvPools(i, adv, np) ==
+  IF np = 0 THEN <<>>
+  ELSE IF adv = "named" THEN <<Nm("pool-", ((i - 1) % np) + 1)>>
+  ELSE IF adv = "multi" /\ np >= 2 THEN <<Nm("pool-", (i % np) + 1), Nm("pool-", ((i - 1) % np) + 1)>>
+  ELSE <<>>
+L2Obj(i, adv, np) ==
+  [name |-> Nm("l2-", i), pools |-> AdvPools(i, adv, np),
+   ifs |-> IF adv = "multi" THEN <<"if-z", Nm("if-", i), "if-m">> ELSE <<Nm("if-", i)>>,
+   nsel |-> IF adv = "multi" THEN <<"b", "a">> ELSE <<>>]
 BgpObj(i, adv, bad, np, nc) ==
   [name |-> Nm("bgp-", i), pools |-> AdvPools(i, adv, np),
    agg4 |-> IF bad = "lpclash" THEN 32 ELSE 32 - i,
    lp |-> IF bad = "lpclash" THEN 100 * i ELSE 0,
-   comm |-> IF i <= nc THEN Nm("al-", i) ELSE ""]
-ComObj(i, bad, n) == [name |-> Nm("com-", i), alias |-> IF bad = "dupalias" /\ i = n /\ n >= 2 THEN Nm("al-", 1) ELSE Nm("al-", i), value |-> i]
+   comms |-> (IF i <= nc THEN <<Nm("al-", i)>> ELSE <<>>) \o (IF adv = "multi" THEN <<"64512:300", "64512:100", "64512:200">> ELSE <<>>),
+   peers |-> IF adv = "multi" THEN <<"peer-b", "peer-c", "peer-a">> ELSE <<>>,
+   nsel |-> IF adv = "multi" THEN <<"b", "a">> ELSE <<>>]
+ComObj(i, adv, bad, n) ==
+  [name |-> Nm("com-", i),
+   aliases |-> <<[name |-> IF bad = "dupalias" /\ i = n /\ n >= 2 THEN Nm("al-", 1) ELSE Nm("al-", i), value |-> i]>>
+               \o (IF adv = "multi" THEN <<[name |-> Nm("zl-", i), value |-> 50 + i], [name |-> Nm("bl-", i), value |-> 60 + i]>> ELSE <<>>)]
 NodeObj(i) == [name |-> Nm("node-", i), zone |-> L[i]]
 NsObj(i) == [name |-> IF i <= 2 THEN Nm("ns", i) ELSE Nm("nsx-", i), lab |-> IF i % 2 = 1 THEN "x" ELSE "y"]
 
-Objs(c, pin, adv, bad) ==
-  [pools |-> [i \in 1 .. c["pools"] |-> PoolObj(i, pin, bad, c["pools"])],
-   peers |-> [i \in 1 .. c["peers"] |-> PeerObj(i, bad)],
-   bfds |-> [i \in 1 .. c["bfds"] |-> BfdObj(i)],
+GridObjs(c, pin, adv, bad) ==
+  [pools |-> [i \in 1 .. c["pools"] |-> PoolObj(i, pin, adv, bad, c["pools"])],
+   peers |-> [i \in 1 .. c["peers"] |-> PeerObj(i, adv, bad)],
+   bfds |-> [i \in 1 .. c["bfds"] |-> BfdObj(i, FALSE)],
    l2advs |-> [i \in 1 .. c["l2advs"] |-> L2Obj(i, adv, c["pools"])],
    bgpadvs |-> [i \in 1 .. c["bgpadvs"] |-> BgpObj(i, adv, bad, c["pools"], c["communities"])],
-   communities |-> [i \in 1 .. c["communities"] |-> ComObj(i, bad, c["communities"])],
+   communities |-> [i \in 1 .. c["communities"] |-> ComObj(i, adv, bad, c["communities"])],
    nodes |-> [i \in 1 .. c["nodes"] |-> NodeObj(i)],
    namespaces |-> [i \in 1 .. c["namespaces"] |-> NsObj(i)]]
 
@@ -56,10 +80,49 @@ CountVecs ==
   {[k \in Kinds |-> c] : c \in 0 .. MaxN}
   \cup {[k \in Kinds |-> IF k = k0 THEN c ELSE b] : k0 \in Kinds, c \in {3, MaxN}, b \in {0, 1, 2}}
 
-AdvModes == {"all", "named"}
+AdvModes == {"all", "named", "multi"}
 BadModes == {"none", "overlap", "lpclash", "dupalias", "nobfd"}
 
-Params == {[n |-> c, pin |-> pin, adv |-> adv, bad |-> bad] : c \in CountVecs, pin \in PinModes, adv \in AdvModes, bad \in BadModes}
+GridParams ==
+  {[kind |-> "grid", n |-> c, pin |-> pin, adv |-> adv, bad |-> bad] :
+      c \in CountVecs, pin \in PinModes \ {"peers"}, adv \in AdvModes, bad \in BadModes}
+
+(* peers slice: what the mode validators compare PAIRWISE: 2 or 3 peers over 2 VRFs x 2 local   *)
+(* ASNs, router ids (none / all equal / last differs / first differs), a duplicated peer address, *)
+(* a BFD profile referenced / with echo mode next to an IPv6 pool with a BGP advertisement        *)
+VA == {<<"", 64512>>, <<"", 64513>>, <<"red", 64512>>, <<"red", 64513>>}
+PeerParams ==
+  {[kind |-> "peers", n |-> [k \in Kinds |-> CASE k = "peers" -> np
+                                             [] k = "pools" -> IF bfd = "echo6" THEN 2 ELSE 1
+                                             [] k = "bfds" -> IF bfd = "none" THEN 0 ELSE 1
+                                             [] k = "bgpadvs" -> IF bfd = "echo6" THEN 1 ELSE 0
+                                             [] OTHER -> 0],
+    pv |-> pv, rid |-> rid, dup |-> dup, bfd |-> bfd, pin |-> "peers", adv |-> "all", bad |-> "none"] :
+      np \in {2, 3}, pv \in [1 .. 3 -> VA], rid \in {"none", "same", "lastdiff", "firstdiff"},
+      dup \in BOOLEAN, bfd \in {"none", "ref", "echo6"}}
+
+PeerSliceObjs(s) ==
+  LET np == s.n["peers"] IN
+  [pools |-> [i \in 1 .. s.n["pools"] |-> [name |-> Nm("pool-", i), cidrs |-> <<IF i = 2 THEN 101 ELSE 1>>, ns |-> <<>>,
+                                            sel |-> FALSE, nssel |-> FALSE, prio |-> 0]],
+   peers |-> [i \in 1 .. np |->
+                Peer(Nm("peer-", i), IF s.dup /\ i = np THEN 1 ELSE i,
+                     IF s.bfd # "none" /\ i = 2 THEN "bfd-a" ELSE "",
+                     s.pv[i][1], s.pv[i][2],
+                     CASE s.rid = "none" -> ""
+                       [] s.rid = "same" -> "10.10.10.1"
+                       [] s.rid = "lastdiff" -> IF i = np THEN "10.10.10.2" ELSE "10.10.10.1"
+                       [] OTHER -> IF i = 1 THEN "10.10.10.2" ELSE "10.10.10.1",
+                     0, 0, "")],
+   bfds |-> [i \in 1 .. s.n["bfds"] |-> BfdObj(i, s.bfd = "echo6")],
+   l2advs |-> <<>>,
+   bgpadvs |-> [i \in 1 .. s.n["bgpadvs"] |-> [name |-> Nm("bgp-", i), pools |-> <<>>, agg4 |-> 32, lp |-> 0, comms |-> <<>>,
+                                               peers |-> <<>>, nsel |-> <<>>]],
+   communities |-> <<>>, nodes |-> <<>>, namespaces |-> <<>>]
+
+Params == GridParams \cup (IF "peers" \in PinModes THEN {p \in PeerParams : \A i \in 1 .. 3 : i <= p.n["peers"] \/ p.pv[i] = <<"", 64512>>} ELSE {})
+
+Objs(s) == IF s.kind = "grid" THEN GridObjs(s.n, s.pin, s.adv, s.bad) ELSE PeerSliceObjs(s)
 
 (* permutations of a kind with n objects, as sequences of listing positions *)
 PermSeqs(n) == PermsOf(n)
@@ -68,7 +131,7 @@ PermSeqs(n) == PermsOf(n)
 ASSUME PrintT(ToJson([perms |-> [k \in 1 .. MaxN |-> PermSeqs(k)]]))
 
 Init == /\ snap \in Params
-        /\ PrintT(ToJson([snap |-> snap, objs |-> Objs(snap.n, snap.pin, snap.adv, snap.bad)]))
+        /\ PrintT(ToJson([snap |-> snap, objs |-> Objs(snap)]))
 Next == UNCHANGED snap
 Spec == Init /\ [][Next]_snap
 
